@@ -6,6 +6,7 @@ import (
 	"fmt"
 	"sort"
 	"strings"
+	"sync/atomic"
 	"testing"
 	"time"
 
@@ -101,7 +102,22 @@ type qworld struct {
 	g      *vkit.Gate
 	cache  *vkit.GateCache
 	store  storage.Storage
+	pmf    *pmFail // hybrid backend: facade that can make every write of a mapping record fail
 	nodes  []*qnode
+}
+
+// pmFail: armed, every Set of a tunnox:port_mapping: record fails at the storage facade (a storage fault in
+// CreatePortMapping), so that an activation fails AFTER it has claimed its code.
+type pmFail struct {
+	*hybrid.Storage
+	armed atomic.Bool
+}
+
+func (p *pmFail) Set(k string, v any, ttl time.Duration) error {
+	if p.armed.Load() && strings.HasPrefix(k, "tunnox:port_mapping:") {
+		return fmt.Errorf("%w (Set %s)", vkit.ErrGateFault, k)
+	}
+	return p.Storage.Set(k, v, ttl)
 }
 
 func newQWorld(nNodes int, cfg *services.ConnectionCodeServiceConfig, gated bool, sel func(string) bool) *qworld {
@@ -128,7 +144,8 @@ func newQWorldOn(backend string, nNodes int, cfg *services.ConnectionCodeService
 		}
 		w.store = &selCache{GateCache: w.cache, sel: sel}
 	} else {
-		w.store = hybrid.NewWithSharedCache(ctx, tier, nil, nil, hybrid.DefaultConfig())
+		w.pmf = &pmFail{Storage: hybrid.NewWithSharedCache(ctx, tier, nil, nil, hybrid.DefaultConfig())}
+		w.store = w.pmf
 	}
 	for i := 0; i < nNodes; i++ {
 		repo := repos.NewRepository(w.store)
